@@ -33,19 +33,40 @@ def gen_basic(rng, tier):
     ops = []
     if k0:
         ops.append(["tick", k0])
+    # a companion: a short finite track on another channel, scheduled just before or just after the measured one; it ends
+    # (and is removed from the timeline) while the measured track keeps playing - which must not disturb a single onset
+    main = 0
+    comp = None
+    if rng.random() < 0.4:
+        cd = G.durations_for(rng, tpb, rng.randint(1, 3))
+        citems = [{"k": "note", "dur": x, "note": 80 + i, "amp": 64, "gate": [1, rng.choice([2, 4])], "chan": 1} for i, x in enumerate(cd)]
+        comp = G.sched_op(G.stream(citems, False, "psequence"))
+        if rng.random() < 0.7:
+            ops.append(comp); main = 1
     ops.append(G.sched_op(G.stream(items, cyclic, rng.choice(["scripted", "psequence", "pdict"])), q, d))
+    if comp is not None and main == 0:
+        ops.append(comp)
     nudge = None
-    if rng.random() < 0.4 and n1 > 6:
+    muted = None
+    r_ = rng.random()
+    if 0.4 <= r_ < 0.6 and n1 > 8:
+        # mute for a while: events that fall due while muted are silent, every other onset is where it would have been
+        a = rng.randint(1, n1 - 4)
+        m = rng.randint(1, max(1, min(n1 - a - 1, 3 * int(ceil(max(durs) / tick)) + 2)))
+        ops += [["tick", a], ["mute", main], ["tick", m], ["unmute", main], ["tick", n1 - a - m]]
+        muted = (k0 + a, k0 + a + m)
+    elif r_ < 0.4 and n1 > 6:
         a = rng.randint(2, n1 - 2)
         x = rng.choice([tick, 2 * tick, F(1, 3), F(1, 10), F(1, 2), F(1), -tick * rng.randint(0, 1)]) if rng.random() < 0.8 else F(0)
-        ops += [["tick", a], ["nudge", 0, x], ["tick", n1 - a]]
+        ops += [["tick", a], ["nudge", main, x], ["tick", n1 - a]]
         nudge = (k0 + a, x)
     else:
         ops.append(["tick", n1])
     sc = {"tpb": tpb, "config": {}, "callbacks": [], "ops": ops,
           "meta": {"kind": "basic", "durs": [str(x) for x in durs], "cyclic": cyclic, "k0": k0, "q": str(q), "d": str(d),
-                   "nudge": None if nudge is None else [nudge[0], str(nudge[1])]}}
-    sc["_o"] = {"durs": durs, "cyclic": cyclic, "k0": k0, "q": q, "d": d, "nudge": nudge}
+                   "nudge": None if nudge is None else [nudge[0], str(nudge[1])], "muted_ticks": muted,
+                   "companion": None if comp is None else ("before" if main == 1 else "after")}}
+    sc["_o"] = {"durs": durs, "cyclic": cyclic, "k0": k0, "q": q, "d": d, "nudge": nudge, "muted": muted}
     return sc
 
 
@@ -108,11 +129,13 @@ def oracle(sc, r):
     for i, calls, res, ids in r["obs"]:
         kind, t = idx[i]
         for c in calls:
-            if c[0] == "on":
+            if c[0] == "on" and c[3] == 0:          # the measured track plays on channel 0 (a companion on channel 1)
                 ons.append((t, c[1]))
     exp = expected_onsets(o, tpb, total)
     if exp is None:
         return None, "nudge into the past"
+    if o.get("muted"):
+        exp = [(t, k) for t, k in exp if not (o["muted"][0] <= t < o["muted"][1])]
     expn = [(t, 40 + (k % len(o["durs"])) if sc["meta"]["kind"] == "basic" else 50 + (k % len(o["durs"]))) for t, k in exp]
     if ons != expn:
         for j, (a, b) in enumerate(zip(ons + [None] * len(expn), expn + [None] * len(ons))):
@@ -129,9 +152,9 @@ def strip(sc):
 
 def check(run):
     rng = run.rng
-    n = 1500 if run.tier == "quick" else 12000
+    n = 1200 if run.tier == "quick" else 12000
     scs = [gen_basic(rng, run.tier) for _ in range(n)]
-    longs = [(24, 1200000), (96, 1200000), (480, 1200000), (1920, 1200000)] if run.tier == "quick" else \
+    longs = [(24, 1200000), (480, 1200000)] if run.tier == "quick" else \
             [(t, 5000000) for t in (24, 48, 96, 100, 480, 960, 1000, 1920)]
     scs += [gen_long(rng, t, nt) for t, nt in longs]
     fin = [G.finalize(strip(sc)) for sc in scs]
@@ -141,6 +164,8 @@ def check(run):
         run.count()
         run.dist("tpb.%d" % sc["tpb"]); run.dist("kind." + sc["meta"]["kind"])
         if sc["_o"]["nudge"]: run.dist("nudge")
+        if sc["_o"].get("muted"): run.dist("mute-unmute")
+        if sc["meta"].get("companion"): run.dist("companion-track." + sc["meta"]["companion"])
         if any(F(x).denominator != 1 for x in [d * sc["tpb"] for d in sc["_o"]["durs"]]): run.dist("off-grid-durations")
         if "driver_error" in r:
             run.violation({"kind": "driver-error", "site": "Timeline"}, {"scenario": fsc, "observed": r}, found_input=True)
